@@ -159,5 +159,19 @@ def rand_cover_vals(rng, n, B):
     return res
 
 
+def big_cover_case(rng, nmax=10):
+    """bin size >= 10^9 with bins that miss the bin size by one (a tolerant comparison would report them as covered)"""
+    B = rng.choice([2 * 10 ** 9, 4 * 10 ** 9, 10 ** 12, 2 ** 40])
+    vals = []
+    for _ in range(rng.randint(1, max(1, nmax // 2))):
+        a = rng.randint(1, B - 1) if rng.random() < 0.5 else B // 2
+        vals += [a, B - a + rng.choice([-1, -1, 0, 1])]
+    vals = [max(1, x) for x in vals][:nmax]
+    if rng.random() < 0.3:
+        vals += [rng.randint(1, 9) for _ in range(rng.randint(1, 3))]
+    rng.shuffle(vals)
+    return B, vals
+
+
 def rand_k(rng, n):
     return rng.choice([1, 2, 2, 3, 3, 4, 5, n, n + 1, 7])
